@@ -34,6 +34,11 @@ CHECKS = {
         text="Lean theorems over a statement-by-statement model of Context.Roots/sortDependencies and RunDSL: phases_barrier (for every world, registration order and DSL behaviour the callback trace is D* P* V* F*), exec_errors_gate and validation_errors_together (all errors of a phase returned together, nothing later runs), finalize_only_if_ok, roots_nodup, roots_complete, and kernel-checked witnesses for the two known findings (self-dependency not reported; DSL of an expression appended during execution never runs). The topological-order claim of Roots is decided by exhaustive enumeration of every irreflexive digraph on <=4 roots x every registration order on the real engine plus correspondence with the model (theorem roots_topo: see DESIGN.md for status). Tie: real eval engine with instrumented roots/expressions vs the compiled model, 0 disagreements required.",
         note="Trusted: Lean kernel; hand-written model (fuel-bounded recursion) validated by correspondence; DependsOn returning never-registered roots is outside the envelope (characterised by correspondence only).",
         ref="DESIGN.md §3 C11"),
+    "C16": dict(
+        category="proof",
+        text="Lean theorems over a byte-level model of url.PathEscape/PathUnescape, the server's Path/RawPath split, chi's choice of routing path and goa's Vars: unescape(pathEscape v) = v and 'an escaped value is one segment' for every byte string; vars_roundtrip_param / vars_roundtrip_catchall: a URL built by substituting the escaped value into /l/{name} or /l/{*name} yields exactly the original bytes in Vars for every value (both the RawPath and the decoded-path branch, the latter via 'if the two escaping modes agree the value contains no slash'); the wildcard table keeps names per method. Tie: real muxer behind http.ReadRequest and real net/url vs the compiled model on built URLs (expected route and values known independently) and arbitrary paths; 404 body decoded.",
+        note="chi's radix tree is not modelled: a specification matcher stands for it (trusted, validated by the run; ambiguous requests not compared). Theorems are stated for one literal segment followed by one wildcard; multi-wildcard patterns are covered by the correspondence and the direct oracle.",
+        ref="DESIGN.md §3 C16"),
 }
 
 m = {
